@@ -269,8 +269,8 @@ func (fx *FuncExec) havocByRule(st *State, pkg *types.Package, args []Val, binds
 		murex = strings.HasPrefix(pkg.Path(), "github.com/lmorg/murex")
 	}
 	for _, k := range keys {
-		if k == topKey {
-			continue
+		if k == topKey || strings.Contains(k, ".$") {
+			continue // ghost state is only changed by ghost updates and contracts that name it
 		}
 		hi := fx.heapInfos[k]
 		apply := false
